@@ -235,6 +235,10 @@ class GraphColoringRegisterAllocator:
         """
         spill_rounds = 0
 
+        # Registers introduced by spill code. Spilling these again cannot
+        # lower the register pressure, their live range is minimal already.
+        self.spill_temps = set()
+
         self.logger.debug("Starting iterative coloring")
         while True:
             self.init_data(frame)
@@ -684,7 +688,13 @@ class GraphColoringRegisterAllocator:
             priority = (u + d) / n.degree
             self.logger.debug("%s has spill priority=%s", n, priority)
             p.append((n, priority))
-        node = min(p, key=lambda x: x[1])[0]
+
+        # Do not select a register that was created by earlier spill code, as
+        # long as there is another candidate:
+        candidates = [
+            x for x in p if not x[0].temps.issubset(self.spill_temps)
+        ]
+        node = min(candidates or p, key=lambda x: x[1])[0]
 
         # Potential spill node, place in simplify worklist:
         self.spill_worklist.remove(node)
@@ -719,6 +729,7 @@ class GraphColoringRegisterAllocator:
                 if self.verbose:
                     self.reporter.message(f"Replace {tmp} by {vreg2}")
                 instruction.replace_register(tmp, vreg2)
+                self.spill_temps.add(vreg2)
 
                 if instruction.reads_register(vreg2):
                     code = self.spill_gen.gen_load(self.frame, vreg2, slot)
@@ -727,6 +738,10 @@ class GraphColoringRegisterAllocator:
                             f"Load code before: {list(map(str, code))}"
                         )
                     self.frame.insert_code_before(instruction, code)
+                    for spill_instruction in code:
+                        self.spill_temps.update(
+                            spill_instruction.defined_registers
+                        )
 
                 if instruction.writes_register(vreg2):
                     code = self.spill_gen.gen_store(self.frame, vreg2, slot)
@@ -735,6 +750,10 @@ class GraphColoringRegisterAllocator:
                             f"Store code after: {list(map(str, code))}"
                         )
                     self.frame.insert_code_after(instruction, code)
+                    for spill_instruction in code:
+                        self.spill_temps.update(
+                            spill_instruction.defined_registers
+                        )
 
                 if self.verbose:
                     self.reporter.dump_frame(self.frame)
